@@ -97,6 +97,10 @@ class BaseRun:
     def __exit__(self, *a):
         self.world.close()
         self._sess.__exit__(*a)
+        # drop the loop / tasks / primitive: only the recorded history is needed from here on
+        self.world = None
+        self.sem = self.lim = None
+        self.tid_of = self.foreign = self.fid_of = None
 
     def runnable_set(self):
         return {t for t, p in self.world.puppets.items() if not p.at_decision and self.world.runnable(p)}
@@ -830,18 +834,20 @@ def shrink(r, budget=150):
     discarded)."""
     params, ops, W = r.params(), list(r.ops), r.W
     best = r
-    i = len(ops) - W
-    while i >= 0 and budget > 0:
-        cand = ops[:i] + ops[i + W:]
-        budget -= 1
-        try:
-            rr = run_script(params, cand, quiesce=True, strict=True)
-        except Exception:  # noqa: BLE001
-            rr = None
-        if rr is not None and rr.mon:
-            ops, best = cand, rr
-        i -= W
-    # the quiescence steps are part of r.ops; keep only up to the first monitor hit when possible
+    changed = True
+    while changed and budget > 0:
+        changed = False
+        i = len(ops) - W
+        while i >= 0 and budget > 0:
+            cand = ops[:i] + ops[i + W:]
+            budget -= 1
+            try:
+                rr = run_script(params, cand, quiesce=False, strict=True)
+            except Exception:  # noqa: BLE001
+                rr = None
+            if rr is not None and rr.mon:
+                ops, best, changed = cand, rr, True
+            i -= W
     return best
 
 
@@ -920,8 +926,13 @@ def check(tier: str) -> int:
         "models prims/Sem.v, prims/Limiter.v hand-written from _asyncio.py:1962-2169 (HEAD, with the F1 fix); cancellation modelled as native Task.cancel() on blocked tasks (superset of what AnyIO scope delivery does to a blocked task)",
         "Limiter theorems are conditional on `tainted = false`: no two concurrent acquire_on_behalf_of for one borrower (O1), no release_on_behalf_of(b) before b's acquire returned (O2), no native cancellation in the shielded yield of an on-behalf acquire for a foreign borrower (D1, refuted by lim_cancel_foreign_fastyield_refuted)",
     ]
+    import time
+    stage = {}
+    t0 = time.time()
     proofs_ok = core.proof_stage(rep, "props/C10.v")
+    stage["proofs"] = round(time.time() - t0, 1); t0 = time.time()
     exe = {short: core.build_driver(short, mod) for short, mod in DRIVERS}
+    stage["drivers"] = round(time.time() - t0, 1); t0 = time.time()
 
     rng = random.Random(core.seed())
     runs = []
@@ -949,11 +960,14 @@ def check(tier: str) -> int:
     else:
         for fast in (False, True):
             for init, mx in ((0, None), (1, 1), (1, None), (2, 2), (0, 1)):
-                ex += exhaustive({"prim": "sem", "fast": fast, "init": init, "max": mx, "ntasks": 3}, 5 if not fast else 4)
+                ex += exhaustive({"prim": "sem", "fast": fast, "init": init, "max": mx, "ntasks": 3}, 4)
+            ex += exhaustive({"prim": "sem", "fast": fast, "init": 1, "max": 1, "ntasks": 2}, 6 if not fast else 5)
         for tot in (0, 1, 2, -1):
-            ex += exhaustive({"prim": "limiter", "total": tot, "ntasks": 3}, 5 if tot in (1,) else 4, lim_small_alphabet)
+            ex += exhaustive({"prim": "limiter", "total": tot, "ntasks": 3}, 4, lim_small_alphabet)
+        ex += exhaustive({"prim": "limiter", "total": 1, "ntasks": 2}, 5, lim_small_alphabet)
     runs += ex
     ctor_bad = constructor_checks()
+    stage["impl_runs"] = round(time.time() - t0, 1); t0 = time.time()
 
     kind = ["sem" if isinstance(r, SemRun) else "limiter" for r in runs]
     cases = [r.header() + r.ops for r in runs]
@@ -979,6 +993,7 @@ def check(tier: str) -> int:
         for kmsg in r.known:
             rep.known_finding(kmsg)
 
+    stage["model_runs"] = round(time.time() - t0, 1); t0 = time.time()
     # kernel-checked sample
     sample_n = 50 if quick else 300
     vm_ok = True
@@ -991,6 +1006,7 @@ def check(tier: str) -> int:
         ok, _log = core.coq_eval_cases("c10" + short, mod, [cases[i] for i in idx], [expected[i] for i in idx])
         vm_ok = vm_ok and ok
 
+    stage["vm_compute"] = round(time.time() - t0, 1); t0 = time.time()
     # ---- decide ----
     seen_msgs = set()
     reported = 0
@@ -1004,7 +1020,7 @@ def check(tier: str) -> int:
         rep.violation(small.mon[0] if small.mon else msg,
                       {"kind": "monitor", "params": small.params(), "ops": small.ops, "quiesce": False,
                        "ops_readable": readable(small), "monitor_messages": small.mon[:6],
-                       "replay": "cd /verif && VERIF_REPO=<repo> bin/check-style env; python -c \"import c10; c10.replay('<this file>')\""})
+                       "replay_cmd": "cd /verif && VERIF_REPO=${VERIF_REPO:-/repo} /venv/bin/python harness/c10.py <this file>"})
     for b in ctor_bad:
         rep.violation("constructor validation: " + b, {"kind": "monitor", "what": b})
     tie_broken = []
@@ -1057,6 +1073,7 @@ def check(tier: str) -> int:
         "vm_compute_ok": vm_ok,
         "model_rejected_ops": rejected,
         "monitor_hits": len(monitor_hits),
+        "stage_seconds": stage,
         "constructor_validation_failures": ctor_bad,
         "known_findings_seen": sorted({k for r in runs for k in r.known}),
         "samples": [{"params": runs[i].params(), "ops": readable(runs[i])[:30], "outs": runs[i].outs[:60]} for i in vm_idx[:2] + vm_idx[-2:]],
@@ -1073,4 +1090,10 @@ def check(tier: str) -> int:
 
 
 if __name__ == "__main__":
+    import os
+    import warnings
+
+    warnings.simplefilter("ignore")
+    sys.path[:0] = [os.environ.get("VERIF_REPO", "/repo") + "/src", str(core.VERIF / "harness")]
+    os.chdir(core.VERIF)
     sys.exit(replay(sys.argv[1]))
